@@ -3,7 +3,7 @@ B-shape: K consecutive read() calls on a fresh reader; source length n, block B,
 (in samples) are unbounded symbolic integers; limiter / recorder / overlap on or off."""
 import z3
 
-from ..engine import explore, S
+from ..engine import explore, S, Unsupported
 from ..values import SymBytes, SymInt, SymRat, slice_goal, toint, tobool
 from ..stubs import iostub
 from .. import loader
@@ -176,6 +176,20 @@ def fp_harness(L, sr, overlap):
             outcome = "accepted"
         except ValueError:
             outcome = "ValueError"
+        except Unsupported:
+            # the size computation left the modelled FP fragment (e.g. round(x, n)): no verdict from the solver for this path.  What is still
+            # done: z3 is asked for doubles at the places where roundings differ - the product duration*rate within 1e-9 below an integer,
+            # and within 1e-9 above one - and the real code is run on them (the replay compares with floor(duration*rate)); a witness
+            # that shows nothing is dropped, the path stays INCONCLUSIVE
+            side = e.choose(2)
+            frac_d, frac_h = z3.fpSub(RNE, pd, fd), z3.fpSub(RNE, ph, fh)
+            near = (lambda fr: z3.fpGT(fr, fpv(1.0 - 1e-9))) if side == 0 else (lambda fr: z3.And(z3.fpLT(fr, fpv(1e-9)), z3.fpGT(fr, fpv(0.0))))
+            e.add(z3.And(z3.fpGEQ(fd, fpv(2.0)), near(frac_d), z3.fpGEQ(fh, fpv(1.0)), z3.fpLT(h, d), near(frac_h) if overlap else z3.BoolVal(True)))
+            m = e.model()
+            if m is None:
+                raise
+            return {"status": "cex", "failing": ["probe: the size computation left the modelled fragment; boundary doubles chosen by z3 are tried on the real code"],
+                    "cex": {"kind": "fp", "sr": sr, "overlap": overlap, "d": fp_to_float(m, d).hex(), "h": fp_to_float(m, h).hex()}}
         except Exception as ex:
             outcome = "raised %s: %s" % (type(ex).__name__, str(ex)[:80])
         # hop of less than one sample: outside the claim (assumption H >= 1)
